@@ -105,6 +105,7 @@ def run(ctx):
                        "in evidence)", "CHA-only call edges contribute no effects"]
     ctx.do(rule_no_param_mutation)
     ctx.do(rule_copies_present)
+    ctx.do(rule_kept_arguments_read_only)
     ctx.do(rule_immutable_api)
     ctx.do(rule_deepcopy)
     from . import C15 as _C15v
@@ -313,3 +314,89 @@ def rule_deepcopy(ctx):
     run.check(pmall(t, "$c = type(self)", "return $c(") is not None or "return type(self)(" in t, R, key(rel, f.qualname, "same-class"),
               "the copy is not of the same class", file=rel,
               line=f.node.lineno, function=f.qualname, expected="cls = type(self)", found="changed")
+
+
+# attributes that hold a caller's object whose documented PURPOSE is to be changed through this object (one reason each)
+KEPT_BUT_MEANT_TO_CHANGE = {
+    ("stix2.datastore::DataStoreMixin", "sink"): "a store IS its source and sink: DataStoreMixin.add() is documented to add to the sink it was given",
+}
+
+_ARG_MUTATORS = ("append", "add", "update", "setdefault", "pop", "popitem", "clear", "extend", "insert", "remove", "discard", "sort", "reverse")
+
+
+def rule_kept_arguments_read_only(ctx, rule_id="C13.no-param-mutation"):
+    """An object may KEEP a reference to something its caller handed in (the `_valid_refs` mapping of a 2.0 observable, the
+    allow-list of a property) -- the constructor stores the argument itself, not a copy.  From then on the attribute IS the
+    caller's object: a method that writes into it (subscript store / delete, a mutating method; directly or through a local
+    alias of the attribute) changes the caller's argument -- long after the call, and invisibly to the parameter-effect
+    analysis, which ends at the constructor.  For every class: attributes bound in __init__ straight to a parameter or to
+    kwargs.pop/get(...) are written by no method of the class or its subclasses."""
+    run = ctx.run
+    prog = ctx.prog
+    n = 0
+    k_ = 0
+    for cls in sorted(prog.classes.values(), key=lambda c: c.id):
+        if cls.module.relpath.startswith("stix2/test") or cls.module.name.startswith("stix2.workbench"):
+            continue
+        init = cls.methods.get("__init__")
+        if init is None:
+            continue
+        params = set(init.all_param_names()) - {"self"}
+        kept = {}
+        for a_ in body_walk(init.node):
+            if isinstance(a_, ast.Assign) and len(a_.targets) == 1 and isinstance(a_.targets[0], ast.Attribute) \
+                    and isinstance(a_.targets[0].value, ast.Name) and a_.targets[0].value.id == "self":
+                v = a_.value
+                direct = isinstance(v, ast.Name) and v.id in params
+                popped = isinstance(v, ast.Call) and isinstance(v.func, ast.Attribute) and v.func.attr in ("pop", "get") \
+                    and isinstance(v.func.value, ast.Name) and v.func.value.id in params
+                if (direct or popped) and (cls.id, a_.targets[0].attr.lstrip("_")) not in KEPT_BUT_MEANT_TO_CHANGE:
+                    kept[a_.targets[0].attr.lstrip("_")] = a_
+        if not kept:
+            continue
+        fam = [cls] + [c for c in prog.classes.values() if cls in (c.mro or [])[1:]]
+        for k in fam:
+            for name, fi in sorted(k.methods.items()):
+                if name in ("__init__", "__new__"):
+                    continue
+
+                def attr_of(e, aliases):
+                    """the kept attribute an expression denotes (self.<attr>, any name-mangled spelling, or a local alias)"""
+                    if isinstance(e, ast.Attribute) and isinstance(e.value, ast.Name) and e.value.id == "self":
+                        base = e.attr.split("__")[-1].lstrip("_") if "__" in e.attr.lstrip("_") else e.attr.lstrip("_")
+                        for kk in kept:
+                            if base == kk or e.attr.lstrip("_") == kk or e.attr.endswith("__" + kk):
+                                return kk
+                    if isinstance(e, ast.Name) and e.id in aliases:
+                        return aliases[e.id]
+                    return None
+                aliases = {}
+                for a_ in body_walk(fi.node):
+                    if isinstance(a_, ast.Assign) and len(a_.targets) == 1 and isinstance(a_.targets[0], ast.Name):
+                        ka = attr_of(a_.value, {})
+                        if ka:
+                            aliases[a_.targets[0].id] = ka
+                for x in body_walk(fi.node):
+                    hit = None
+                    if isinstance(x, (ast.Assign, ast.AugAssign, ast.Delete)):
+                        for t_ in (x.targets if not isinstance(x, ast.AugAssign) else [x.target]):
+                            for tt in ([t_] + (list(t_.elts) if isinstance(t_, (ast.Tuple, ast.List)) else [])):
+                                if isinstance(tt, ast.Subscript):
+                                    hit = hit or attr_of(tt.value, aliases)
+                    elif isinstance(x, ast.Call) and isinstance(x.func, ast.Attribute) and x.func.attr in _ARG_MUTATORS:
+                        hit = attr_of(x.func.value, aliases)
+                    if isinstance(x, ast.Assign):      # chained:  a = self.attr[k] = v
+                        for t_ in x.targets:
+                            if isinstance(t_, ast.Subscript):
+                                hit = hit or attr_of(t_.value, aliases)
+                    if hit:
+                        k_ += 1
+                        run.violation(rule_id, key(fi.module.relpath, fi.qualname, "kept-argument-written#%d" % k_),
+                                      "a method writes into an attribute that holds the caller's own argument (stored by reference in "
+                                      "%s.__init__): the caller's object is modified" % cls.name, file=fi.module.relpath, line=x.lineno,
+                                      function=fi.qualname, expected="kept arguments are read-only (copy before writing)", found=short(x, 90))
+        n += len(kept)
+    run.extra["kept_argument_attributes"] = n
+    if n < 5:
+        raise AnalysisError("fewer than 5 attributes holding a caller's argument found (%d): extraction lost" % n)
+    run.ok(rule_id, key("stix2", "<classes>", "kept-arguments-read-only"))
